@@ -433,6 +433,8 @@ impl PtraceDumper {
                 }
             };
 
+            #[cfg(feature = "verif-hooks")]
+            crate::verif_hooks::sync(crate::verif_hooks::Point::BeforeThreadName(tid));
             // Read the thread-name (if there is any)
             let name_result = failspot!(if ThreadName {
                 Err(std::io::Error::other(
